@@ -122,6 +122,7 @@ type HMeltQ struct {
 	IsMpp   bool
 	Msat    uint64
 	Inputs  []*HProof // inputs of the in-flight / last melt
+	Last    []*HProof // inputs of the last accepted melt (kept after it is resolved: adversarial re-spend attempts)
 	// expected (by the property text) state after the last Lightning answer
 	Expect string // UNPAID | PENDING | PAID
 	Internal bool
@@ -1122,6 +1123,12 @@ func (s *Seq) OpMeltLn(q *HMeltQ, ps []ReqProof, script []string, lnFail bool) s
 		fee, okFee := s.feeOf(ps)
 		if !okFee || in < q.Amount+q.Reserve+fee {
 			s.c.MonitorFail("C02", "C02/melt/inputs-below-amount-reserve-fee", fmt.Sprintf("melt accepted inputs %d for amount %d reserve %d fee %d", in, q.Amount, q.Reserve, fee), s.replay())
+		}
+		q.Last = nil
+		for _, rp := range ps {
+			if hp := s.bySecret[rp.P.Secret]; hp != nil {
+				q.Last = append(q.Last, hp)
+			}
 		}
 		expect := "PENDING"
 		if internal != nil {
